@@ -349,6 +349,18 @@ class Excl:
             sources.append(o)
         return sources, filters
 
+    def _container_chain_for_arg(self, term, i):
+        """Sources and Filter closures of the container(s) an argument's value was taken from."""
+        srcs, filters = [], []
+        for o in self.tracer.origins_of_arg(term, i):
+            if o.kind == "call":
+                m = (o.term.callee or "").rsplit("::", 1)[-1]
+                if m in ELEMENT_CALLS and o.term.args:
+                    s2, f2 = self._container_chain(o.term)
+                    srcs.extend(s2)
+                    filters.extend(f2)
+        return srcs, filters
+
     def _filter_closures_in_type(self, ty):
         """Closures that are the predicate of a Filter<I, P> shell in an iterator type string."""
         out = []
@@ -492,6 +504,22 @@ class Excl:
                 if vals == {want}:
                     return True
         if c == "":
+            # closures returning (the negation of) an is_empty() call directly
+            for t in cl.calls("std::ffi::OsString::is_empty", "std::ffi::OsStr::is_empty", "core::slice::<impl [T]>::is_empty", "std::path::Path::is_empty"):
+                for blk in cl.blocks:
+                    for i, s in enumerate(blk.stmts):
+                        if s.kind == "assign" and s.lhs.is_local and s.lhs.local == 0 and s.rv["k"] in ("un", "use"):
+                            ops = s.rv_operands()
+                            if not ops or ops[0].place is None:
+                                continue
+                            os_ = self.tracer.origins_of_operand(cl, blk.idx, i, ops[0])
+                            if any(o.kind == "call" and o.term is t for o in os_):
+                                val_when_empty = not (s.rv["k"] == "un" and s.rv.get("op") == "Not")
+                                if val_when_empty == want:
+                                    return True
+                ro = self.tracer.return_origins(cl)
+                if want is True and any(o.kind == "call" and o.term is t for o in ro):
+                    return True
             # is_empty() tests
             for t in cl.calls("std::ffi::OsString::is_empty", "std::ffi::OsStr::is_empty", "core::slice::<impl [T]>::is_empty"):
                 be = bool_edges(cl, t)
